@@ -13,8 +13,9 @@ Decided:
          "smallest field already oversized" returns the smallest field initialised at min_height,
          "largest field fails" returns the largest allowed field initialised at max_height - both only under
          continue_if_design_unmet, otherwise ValueError
-  R02.4  raise discipline: every explicit raise in the package is ValueError, or sits in the else of an
-         if-chain that is exhaustive over its enum (get_bhe_object)
+  R02.4  raise discipline: every explicit raise in the package is ValueError, or is reached only when one subject
+         equals no member of its enum (else of an if-chain, or the statement after a run of returning ifs);
+         no expression adds text and a number (TypeError instead of the ValueError that was meant)
   R02.5  empty selection: a constant subscript is never applied to a filtered comprehension (directly or
          through a local) without a dominating non-emptiness test - that IndexError would escape
   R02.6  maybe-None use: in the search classes no path reaches len() / subscript / return-as-coordinates
